@@ -166,6 +166,9 @@ class TokenStream:
                 ret_val = self._source[self._start_pos:new_line_pos]
                 if ret_val and not ret_val.isspace():
                     self._source_io.seek(new_line_pos + additional)
+                    # The lexer has state that depends on what it has read -
+                    # e.g., it gives no more tokens once it has reached the end of the source.
+                    self._lexer = self._new_lexer()
                     self._head_syntax_error_description = None
                     self.consume()
                 else:
